@@ -264,6 +264,8 @@ class MCMCProp(Prop):
             c["int_target"] = True
         if i % 4 == 2:
             c["warm_rewire"] = True
+            if c["limits"] is not None and i % 8 == 2:
+                c["limits"][0] = 1 + (i // 8) % 2          # a short observed run after the warm-up: certain to be seen to its end
         return c
 
     def gen_dense(self, rng, i, tier):
